@@ -32,7 +32,8 @@ RULE = ("parameter dictionaries of 1-7 entries over the supported value "
         "Result histories mix updates with merges of multi-update results; the "
         "same object is saved again after further operations; results of single "
         "unpacked variations are saved under templates naming the unpacked "
-        "parameter. ")
+        "parameter. "
+        "Extension-less file names are also loaded by the name they were saved with. ")
 ASSUMPTIONS = ["lists do not contain arrays (the classes' own == cannot "
                "compare those, independent of serialisation)",
                "by-value comparison: a float32 may come back as a Python float "
@@ -386,6 +387,9 @@ def case_results(ctx, rng, idx):
             name = os.path.join(wd, "r_%d_{%s}%s" % (idx, scalars[0], ext))
         used = x.save_to_file(name)
         state["template"], state["used"] = name, used
+        if route == "noext-file" and idx % 2:
+            # loaded the way it was saved: by the name without an extension
+            return SimulationResults.load_from_file(name)
         return SimulationResults.load_from_file(used)
 
     strict = route in ("pickle-file", "noext-file") or \
